@@ -1,7 +1,7 @@
 (* C12 -- property theorems only: statement + exact + Print Assumptions. *)
 From Coq Require Import List ZArith String Bool.
 From LJT Require Import gen.GenErrPaths model.ApiState model.ApiOps model.ErrPaths
-  proofs.ApiStateProofs proofs.ApiHistoryProofs proofs.ApiKindsProofs.
+  proofs.ApiStateProofs proofs.ApiHistoryProofs proofs.ApiKindsProofs proofs.ApiDestProofs.
 Import ListNotations.
 Local Open Scope Z_scope.
 Local Open Scope string_scope.
@@ -207,3 +207,17 @@ Print Assumptions C12_F2_regression.
 Theorem C12_F2_fix_present : dest_forgets_newbuffer = true.
 Proof. exact eq_refl. Qed.
 Print Assumptions C12_F2_fix_present.
+
+(* the destination manager of the source as it is (flag read by the translator) never frees a
+   buffer twice, for ALL sequences of compression / transform calls (caller passes NULL, a
+   fresh buffer or the buffer it holds; jpeg_mem_dest_tj reached or not; any number of
+   enlargements; terminated or not) -- and the same sequences do so without the F2 fix *)
+Theorem C12_destination_never_frees_twice :
+  forall cs, Forall wf_call cs -> d_doublefree (run_calls dest_forgets_newbuffer cs dest0) = false.
+Proof. exact dest_never_frees_twice. Qed.
+Print Assumptions C12_destination_never_frees_twice.
+Theorem C12_destination_refuted_without_fix :
+  Forall wf_call f2_calls /\ d_doublefree (run_calls false f2_calls dest0) = true /\
+  d_doublefree (run_calls true f2_calls dest0) = false.
+Proof. exact dest_refuted_without_fix. Qed.
+Print Assumptions C12_destination_refuted_without_fix.
